@@ -291,6 +291,20 @@ func ValueSweeps() []SweepCase {
 				out = append(out, SweepCase{cfg, al, ops, "meta-type", fmt.Sprintf("%02X/%d", typ, n)})
 			}
 		}
+		// many events in one track (chunk bodies beyond 64 KiB, event counts beyond 65535)
+		for _, ne := range []int{255, 256, 257, 4095, 4096, 65535, 65536, 65537} {
+			al := []Msg{{"a", []byte{0x90, 0x40, 0x41}}, {"b", []byte{0x90, 0x41, 0x00}}, {"t", smf.MetaText("x")}}
+			ops := make([]Op, 0, ne+2)
+			for e := 0; e < ne; e++ {
+				m := e % 2
+				if e%1000 == 999 {
+					m = 2
+				}
+				ops = append(ops, Op{Kind: OpAdd, D: uint32(e % 2), M1: m})
+			}
+			ops = append(ops, Op{Kind: OpClose, D: 1}, Op{Kind: OpSMFAdd})
+			out = append(out, SweepCase{cfg, al, ops, "event-count", ne})
+		}
 		for _, nt := range []int{1, 2, 3, 16, 127, 128, 255, 256, 257, 1000} {
 			al := []Msg{{"note", []byte{0x90, 0x40, 0x41}}}
 			var ops []Op
